@@ -297,14 +297,31 @@ func H_types() {
 
 func H_abstract() {
 	k := symx.Choose("case", 5)
+	// how the object is made: literal class name, dynamic name, late-static / self factory of the class itself
+	form := symx.Choose("form", 4)
+	if k == 1 && form >= 2 {
+		return // an interface has no method bodies to put a factory in
+	}
+	const fact = " static function make() { return new static(); } static function mk2() { return new self(); } "
+	inst := func(cls string) string {
+		switch form {
+		case 1:
+			return "$n = \"" + cls + "\"; $o = new $n(); mark(70);"
+		case 2:
+			return "$o = " + cls + "::make(); mark(70);"
+		case 3:
+			return "$o = " + cls + "::mk2(); mark(70);"
+		}
+		return "$o = new " + cls + "(); mark(70);"
+	}
 	// every attempt is made several times: a rejection must not wear off (nor an acceptance)
 	rep := func(stmt string) string { return guarded(stmt) + " " + guarded(stmt) + " " + guarded(stmt) }
 	srcs := []string{
-		"abstract class A { abstract function m(); } " + rep("$o = new A(); mark(70);") + " mark(99);",
-		"interface I { function m(); } " + rep("$o = new I(); mark(70);") + " mark(99);",
-		"abstract class A { abstract function m(); } class C extends A { function m() { return 1; } } " + rep("$o = new C(); mark(70);") + " mark(99);",
-		"abstract class A { abstract function m(); } class D extends A { } " + rep("$o = new D(); mark(70);") + " mark(99);",
-		"interface J { function m(); } class E implements J { } " + rep("$o = new E(); mark(70);") + " mark(99);",
+		"abstract class A { abstract function m();" + fact + "} " + rep(inst("A")) + " mark(99);",
+		"interface I { function m(); } " + rep(inst("I")) + " mark(99);",
+		"abstract class A { abstract function m(); } class C extends A { function m() { return 1; }" + fact + "} " + rep(inst("C")) + " mark(99);",
+		"abstract class A { abstract function m(); } class D extends A {" + fact + "} " + rep(inst("D")) + " mark(99);",
+		"interface J { function m(); } class E implements J {" + fact + "} " + rep(inst("E")) + " mark(99);",
 	}
 	s := sx.Compile(srcs[k])
 	if k >= 3 && s.Err != nil {
